@@ -166,7 +166,12 @@ func verifH_C17_schema_nested() {
 	case 0:
 		src.Properties = openapi2.Schemas{"p": child("p.")}
 	case 1:
-		src.Type = &openapi3.Types{"array"}
+		// items with the type said, or left to be understood (a schema may constrain items without saying type: array)
+		if verifChoose("arrayTyped", 2) == 1 {
+			src.Type = &openapi3.Types{"array"}
+		} else {
+			src.Type = nil
+		}
 		src.Items = child("i.")
 	case 2:
 		src.AllOf = openapi2.SchemaRefs{child("a0."), child("a1.")}
